@@ -219,6 +219,9 @@ class AbstractContainer(abstract.GeomdlBase):
                              + " for the " + str(idx + 1) + "st parametric dimension.")
         self._delta[idx] = float(value)
 
+        # Reset the cache
+        self.reset()
+
     @property
     def sample_size(self):
         """ Sample size (for all parametric directions).
@@ -272,6 +275,9 @@ class AbstractContainer(abstract.GeomdlBase):
         if value < 2:
             raise GeomdlException("Sample size must be an integer value bigger than 2")
         self._delta[idx] = 1.0 / float(value)
+
+        # Reset the cache
+        self.reset()
 
     @property
     def data(self):
